@@ -36,7 +36,7 @@ func VerifSessionFlush(s *UDPSession) {
 	s.mu.Unlock()
 }
 
-func verifSeg(sb *strings.Builder, seg *segment) {
+func verifSnapSeg(sb *strings.Builder, seg *segment) {
 	fmt.Fprintf(sb, "{%d %d %d %d %d %d %d %d %d %d %d %d %s}", seg.conv, seg.cmd, seg.frg, seg.wnd, seg.ts, seg.sn,
 		seg.una, seg.rto, seg.xmit, seg.resendts, seg.fastack, seg.acked, hex.EncodeToString(seg.data))
 }
@@ -44,7 +44,7 @@ func verifSeg(sb *strings.Builder, seg *segment) {
 func verifRing(sb *strings.Builder, name string, r *RingBuffer[segment]) {
 	fmt.Fprintf(sb, "%s[%d]:", name, r.Len())
 	r.ForEach(func(seg *segment) bool {
-		verifSeg(sb, seg)
+		verifSnapSeg(sb, seg)
 		return true
 	})
 	sb.WriteByte('\n')
@@ -70,7 +70,7 @@ func VerifSessionSnapshot(s *UDPSession) []byte {
 	verifRing(&sb, "rcv_queue", k.rcv_queue)
 	fmt.Fprintf(&sb, "rcv_buf[%d]:", len(k.rcv_buf.segments))
 	for i := range k.rcv_buf.segments {
-		verifSeg(&sb, &k.rcv_buf.segments[i])
+		verifSnapSeg(&sb, &k.rcv_buf.segments[i])
 	}
 	marks := make([]uint32, 0, len(k.rcv_buf.marks))
 	for m := range k.rcv_buf.marks {
